@@ -1616,6 +1616,19 @@ class Interp:
                         handled = False
                 if handled:
                     return outs
+        if self.places and not e['args'] and is_iter_step(cal) is not None:
+            # it.next() / it.next_back() on a local (or the place behind a `&mut` local) whose value is a sequence known element by
+            # element.  An iterator is represented by the items it has yet to yield, front to back - `into_iter()` / `iter()` of a
+            # vector are that vector's elements, `rev()` of it their reverse (see builtin_summary) -: next() takes the first of them
+            # and next_back() the last (std: DoubleEndedIterator::next_back "removes and returns an element from the end of the
+            # iterator"; the two ends never cross), None when none is left; what remains is the iterator's value from here on.
+            tgt = self.vec_target(e['recv'])
+            c = self.vec_read(tgt, st) if tgt is not None else None
+            if c is not None and c[0] == 'vec' and not hirq.strip_refs(e['recv'].get('ty') or '').startswith('alloc::vec::Vec<'):
+                front = is_iter_step(cal) == 'next'
+                ret = ('ctor', 'None', ()) if not c[1] else ('ctor', 'Some', (c[1][0] if front else c[1][-1],))
+                new = ('vec', c[1][1:] if front else c[1][:-1])
+                return [Out('val', ret, self.vec_write(tgt, new, st, e).event(('call', cal, (c,), e)))]
         if cal.endswith('alloc::vec::Vec::<T, A>::insert') and len(e['args']) == 2:
             # vec.insert(k, x) on a vector whose elements are known, at a literal position
             recv = hirq.peel_refs(e['recv'])
@@ -2405,6 +2418,19 @@ def range_as_built(I, node, term, st):
                 return False
     return True
 
+def is_iter_step(cal):
+    """'next' / 'next_back' when the callee is Iterator::next / DoubleEndedIterator::next_back (of whatever iterator type), else None.
+    VecDeque::pop_front / pop_back are the same two steps on a deque (std: "removes the first element and returns it, or None if
+    the deque is empty" / "removes the last element ..."): a deque is represented by its elements front to back, and
+    `VecDeque::from(vec)` keeps the vector's order."""
+    if cal.startswith('alloc::collections::vec_deque::VecDeque::<T, A>::pop_'):
+        return {'pop_front': 'next', 'pop_back': 'next_back'}.get(cal.rsplit('::', 1)[-1])
+    if cal == 'core::iter::traits::iterator::Iterator::next' or cal.endswith(' as core::iter::traits::iterator::Iterator>::next'):
+        return 'next'
+    if cal == 'core::iter::traits::double_ended::DoubleEndedIterator::next_back' or cal.endswith(' as core::iter::traits::double_ended::DoubleEndedIterator>::next_back'):
+        return 'next_back'
+    return None
+
 def _cls(*parts):
     s = set()
     for p in parts:
@@ -2574,6 +2600,11 @@ def known_seq_summary(I, cal, name, args, node, st):
             # windows(k): every contiguous run of k elements, in order (none when the slice is shorter than k; k == 0 panics)
             k = args[1][1]
             return [Out('val', ('vec', tuple(('vec', xs[i:i + k]) for i in range(max(len(xs) - k + 1, 0)))), st)]
+    if is_slice and I.places and len(args) == 1 and args[0][0] == 'vec' and name in ('first', 'last'):
+        # first() / last() of a vector whose elements are listed one by one (known by position, whatever they are): None for an
+        # empty one, else that element
+        xs = args[0][1]
+        return [Out('val', ('ctor', 'Some', (xs[0 if name == 'first' else -1],)) if xs else ('ctor', 'None', ()), st)]
     if is_iter and len(args) == 2 and name in ('any', 'all', 'position', 'find') and args[1][0] in ('closure', 'fn') and I.literal_elems(args[0]) is not None:
         # a search over a known sequence: the predicate is applied to the elements in order until it decides (short circuit)
         states, outs = [st], []
@@ -3083,7 +3114,7 @@ def builtin_summary(I, cal, args, node, st):
     if name == 'input_len' and 'nom::traits::InputLength' in cal and len(args) == 1 and args[0][0] == 'lit' and isinstance(args[0][1], (bytes, str)):
         # nom's InputLength for &[u8] / &str is `self.len()`: the number of octets
         return [Out('val', ('lit', len(args[0][1].encode('utf-8') if isinstance(args[0][1], str) else args[0][1])), st)]
-    if name in ('is_empty', 'len') and args and args[0][0] == 'vec' and cal.startswith('alloc::vec::Vec'):
+    if name in ('is_empty', 'len') and args and args[0][0] == 'vec' and (cal.startswith('alloc::vec::Vec') or (I.places and cal.startswith('alloc::collections::vec_deque::VecDeque::<T, A>::'))):
         return [Out('val', ('lit', len(args[0][1]) == 0 if name == 'is_empty' else len(args[0][1])), st)]
     if name == 'is_empty' and args and args[0][0] == 'vecpush' and cal.startswith('alloc::vec::Vec'):
         return [Out('val', FALSE, st)]          # a vector something was pushed to is not empty, whatever it held before
@@ -3370,6 +3401,10 @@ def builtin_summary(I, cal, args, node, st):
                 elif not removed:
                     s2 = s2.event(('kept-all', cal, (place,), node))
                 return [Out('val', UNIT, s2)]
+    if I.places and cal == 'core::iter::traits::iterator::Iterator::rev' and len(args) == 1 and args[0][0] == 'vec':
+        # rev() of an iterator that has the items x1 .. xn yet to yield (front to back) yields xn .. x1: with an iterator represented
+        # by its remaining items in the order it yields them (see the next / next_back model in ev_MethodCall) that is the reversed list
+        return [Out('val', ('vec', tuple(reversed(args[0][1]))), st)]
     if cal == 'core::iter::traits::iterator::Iterator::enumerate' and len(args) == 1:
         return [Out('val', ('enumerate', args[0]), st)]
     if cal == 'core::iter::traits::iterator::Iterator::collect' and args:
